@@ -301,3 +301,16 @@ def policy_valuation(f: FuncInfo, vals: list, chosen, valid_const: str = "_VALID
         val[f"{x} not in {valid_const}"] = chosen is None
         val[f"{x} in {valid_const}"] = chosen is not None
     return val
+
+
+def param_bound_to(db: ProgramDB, caller: FuncInfo, callee: FuncInfo, arg_name: str, default: str | None = None) -> str | None:
+    """The parameter of ``callee`` that receives the caller's variable ``arg_name`` at a call in ``caller``
+    (private helpers' parameter names are not API: rules take them from the binding at the call site)."""
+    from sa.db import bind_args
+
+    for c in db.calls_in(caller, include_nested=True):
+        if any(cal.func is callee for cal in db.resolve_call(c, caller)):
+            for pn, a in (bind_args(c, callee) or {}).items():
+                if isinstance(a, ast.Name) and a.id == arg_name:
+                    return pn
+    return default
